@@ -252,7 +252,7 @@ DoUn(st, op, a, ln) ==
             IF x[1] = "n" THEN PushV(st, <<Num(0 - x[2])>>)
             ELSE IF x[1] = "un" THEN Unmod(st, "numeral")
             ELSE LET h == MetaField(st, a, "__unm") IN
-                 IF h = Nil THEN Fault(st, ln) ELSE CallValue(st, h, <<a>>, FALSE, ln))
+                 IF h = Nil THEN Fault(st, ln) ELSE CallValue(st, h, <<a, a>>, FALSE, ln))   \* 5.1 hands every arithmetic handler two operands
       [] op = "#" ->
            (IF a[1] = "s" THEN PushV(st, <<Num(Len(a[2]))>>)
             ELSE IF IsOpaqueStr(a) THEN Unmod(st, "length of fault text")
